@@ -413,7 +413,7 @@ CURATED = [
      ("read", 1), ("close", 0), ("pub", 4)),
     # the bus is held with an event in flight while the original is cloned twice, read and closed
     (("sub", 0), ("pub", 1), ("hpub", 2), ("sub", 1), ("read", 1), ("sub", 1), ("aclose", 2), ("release", 0),
-     ("read", 1), ("read", 3), ("read", 3), ("join", 2)),
+     ("read", 1), ("read", 3), ("join", 2)),
 ]
 
 
